@@ -52,6 +52,9 @@ func c13Run(t *fw.T) {
 		data = gen.UTF8(r, gen.SmallLen(r, 120))
 	}
 	data = bytes.ReplaceAll(data, []byte{0}, []byte{'0'})
+	if len(data) > 0 && r.Intn(12) == 0 {
+		data[len(data)-1] = 0 // a NUL as very last byte of the stream is data like any other (positions, not values, decide about the end)
+	}
 	cs := &c13Case{Data: data, FailAt: -1}
 	cs.Size = gen.Pick(r, []int{0, 1, 2, 3, 7, 8, 16, 64, 4096})
 	maxChunk := 1 + r.Intn(2*cs.Size+4)
